@@ -12,3 +12,21 @@ func verifLast(t *Tree, n *node) (last *node, count int) {
 	}
 	return last, count
 }
+
+// verifNegatedClass is the action of peg.peg for a negated class, '[^' Ranges ']' and '[[^' DoubleRanges ']]':
+//   { p.AddPeekNot(); p.AddDot(); p.AddSequence() }
+// (the loader checks that the action text in peg.peg is this statement list). Its contract says that, with the class on
+// top of the stack, it leaves Sequence(PeekNot(class), Dot): "anything but the class" (property C10).
+func verifNegatedClass(t *Tree) {
+	t.AddPeekNot()
+	t.AddDot()
+	t.AddSequence()
+}
+
+// verifTrailingSlash is the action of peg.peg for an expression that ends in a slash, `e1 / ... / en /`:
+//   { p.AddNil(); p.AddAlternate() }
+// With the alternation so far on top of the stack it adds the empty alternative.
+func verifTrailingSlash(t *Tree) {
+	t.AddNil()
+	t.AddAlternate()
+}
